@@ -4,14 +4,16 @@
 // Protocol: one command per stdin line, whitespace separated tokens, doubles as C99 hex floats
 // (decimal accepted as well), one or more result lines per command, `END <n>` at eof.
 //
-//   M <tb> <mu> <M1> <M2> <mL> <mR> <Amu>
-//        on-shell MSSM point built like examples/example-gm2calc.cpp (other inputs fixed below)
+//   M <tb> <mu> <M1> <M2> <mL> <mR> <Amu> [<alpha(MZ)> <alpha(0)> <MW> <MZ> <m_mu> <mt> <mb(mb)> <mtau>]
+//        on-shell MSSM point built like examples/example-gm2calc.cpp (other inputs fixed below);
+//        optional SM block, a token `d` keeps the example's value
 //        -> M OK <g1 g2 vd vu Mu M1 M2 ml2 me2 Ye TYe Ae MM | amu1LChi0 amu1LChipm amu1L |
 //                 MChi[4] MCha[2] MSm[2] MSvmL>                (g1 GUT normalised)
 //           M EXC <class> <what>          library threw
 //           M PROB <problems/warnings>    have_problem() or have_warning() after calculate_masses()
 //
 //   T <basis 0=mass|1=gauge> <type 1..6> <17 reals> <Delta_l 9 row-major> <Pi_l 9 row-major>
+//     [<m_e> <m_mu> <m_tau> <MW> <MZ> <alpha_em(MZ)> <mhSM>]     optional SM block, `d` keeps the default
 //        mass basis reals : mh mH mA mHp sba l6 l7 tb m122 zeta_u zeta_d zeta_l + 5 ignored
 //        gauge basis reals: l1..l7 tb m122 zeta_u zeta_d zeta_l + 5 ignored
 //        -> T OK <alpha_em mw mz mhSM v | MFe[3] MFv[3] | Mhh[2] MA MHp |
@@ -74,20 +76,33 @@ static void pd(double x) { std::printf(" %a", x); }
 
 // ---------------------------------------------------------------- MSSM
 
-static void sm_inputs(MSSMNoFV_onshell& m) {
+// SM inputs of an MSSM point: alpha(MZ), alpha(0), MW, MZ, m_mu, mt, mb(mb), mtau  (defaults: example-gm2calc.cpp)
+struct SMIn { double v[8] = {0.0077552, 0.00729735, 80.385, 91.1876, 0.1056583715, 173.34, 4.18, 1.777}; };
+
+static void sm_inputs(MSSMNoFV_onshell& m, const SMIn& s = SMIn()) {
    const double Pi = 3.141592653589793;
-   m.set_alpha_MZ(0.0077552);
-   m.set_alpha_thompson(0.00729735);
+   m.set_alpha_MZ(s.v[0]);
+   m.set_alpha_thompson(s.v[1]);
    m.set_g3(std::sqrt(4 * Pi * 0.1184));
-   m.get_physical().MFt = 173.34;
-   m.get_physical().MFb = 4.18;
-   m.get_physical().MFm = 0.1056583715;
-   m.get_physical().MFtau = 1.777;
-   m.get_physical().MVWm = 80.385;
-   m.get_physical().MVZ = 91.1876;
+   m.get_physical().MFt = s.v[5];
+   m.get_physical().MFb = s.v[6];
+   m.get_physical().MFm = s.v[4];
+   m.get_physical().MFtau = s.v[7];
+   m.get_physical().MVWm = s.v[2];
+   m.get_physical().MVZ = s.v[3];
 }
 
-struct MP { double tb, mu, M1, M2, mL, mR, Amu; };
+// optional trailing block of n tokens, each a number or `d` (keep default); returns false on a malformed block
+static bool read_optional(std::istringstream& in, double* v, int n) {
+   std::string t;
+   for (int i = 0; i < n; i++) {
+      if (!(in >> t)) return i == 0;          // absent block is fine
+      if (t != "d") v[i] = std::strtod(t.c_str(), nullptr);
+   }
+   return true;
+}
+
+struct MP { double tb, mu, M1, M2, mL, mR, Amu; SMIn sm; };
 
 // everything that is not scanned; first/third generation sleptons are kept heavy so that the
 // selectron/stau sectors never decide whether a point is accepted
@@ -127,7 +142,7 @@ static bool read_mp(std::istringstream& in, MP& p) {
 // returns 0 ok, 1 exception, 2 problem/warning; prints the status tokens after `tag`
 static int make_onshell(MSSMNoFV_onshell& m, const MP& p, const char* tag) {
    try {
-      sm_inputs(m);
+      sm_inputs(m, p.sm);
       other_inputs(m, p);
       soft_inputs(m, p.mu, p.M1, p.M2, p.mL * p.mL, p.mR * p.mR);
       m.calculate_masses();
@@ -145,7 +160,7 @@ static int make_onshell(MSSMNoFV_onshell& m, const MP& p, const char* tag) {
 
 static void cmd_M(std::istringstream& in) {
    MP p;
-   if (!read_mp(in, p)) { std::printf("ERR bad M command\n"); return; }
+   if (!read_mp(in, p) || !read_optional(in, p.sm.v, 8)) { std::printf("ERR bad M command\n"); return; }
    MSSMNoFV_onshell m;
    if (make_onshell(m, p, "M")) return;
    double a0, ac, a1;
@@ -192,6 +207,11 @@ static void cmd_T(std::istringstream& in) {
    sm.set_mu(1, 1.28);
    sm.set_md(2, 4.18);
    sm.set_ml(2, 1.77684);
+   // optional SM block: m_e m_mu m_tau MW MZ alpha_em(MZ) mhSM
+   double smv[7] = {sm.get_ml(0), sm.get_ml(1), sm.get_ml(2), sm.get_mw(), sm.get_mz(), sm.get_alpha_em_mz(), sm.get_mh()};
+   if (!read_optional(in, smv, 7)) { std::printf("ERR bad T command\n"); return; }
+   sm.set_ml(0, smv[0]); sm.set_ml(1, smv[1]); sm.set_ml(2, smv[2]);
+   sm.set_mw(smv[3]); sm.set_mz(smv[4]); sm.set_alpha_em_mz(smv[5]); sm.set_mh(smv[6]);
    thdm::Config cfg;
    cfg.force_output = false;
    cfg.running_couplings = true;
